@@ -1,6 +1,7 @@
 import MpirProofs.Lemmas.Base
 import MpirProofs.Lemmas.Kernels
 import MpirProofs.Props.C03
+import MpirProofs.Lemmas.MpzKernel
 import MpirProofs.Lemmas.Mpz
 import MpirProofs.Props.C03_mpz
 import MpirProofs.Props.C01_mpz
